@@ -389,3 +389,54 @@ Proof.
       replace acts with (acts ++ []) at 2 by apply app_nil_r.
       apply (LoopOut_raised P c l hh t hh [] pend acts must s); [exact W|exact R|apply Mono_refl|intros; reflexivity|intros; reflexivity].
 Qed.
+
+Lemma VC_step vd P l : Forall (fun c => VC vd (rid c) (rch c)) l -> VC vd P l.
+Proof.
+  intros FA f hh t s Sz W R HP Sb ND NP.
+  rewrite h_fvisit_unfold, HP. cbn [fvisit].
+  assert (Szc : forall c, In c l -> size c <= f) by (intros c Hc; assert (X := size_le_in' c l Hc); lia).
+  assert (Lk : forall c, In c l -> In (rid c) (hch hh P)) by (intros c Hc; rewrite HP; now apply in_map).
+  match goal with |- context [?g l s [] false []] =>
+    assert (X := go_loop vd P f g (fun s0 pend must acts => eq_refl) (fun c l' s0 pend must acts => eq_refl) l FA Szc ND NP hh t s [] false [] W R Sb Lk);
+    destruct (g l s [] false []) as [[[mM aM] sM] rM] end.
+  destruct (h_go f vd (map rid l) hh s [] false) as [[[[mH pH] hH] sH] rH].
+  destruct X as (E1 & E2 & E3 & D & pend' & Ep & Ip & NDp & Ea & W' & R' & Mo' & Fr' & Fg').
+  cbn [app] in Ep, Ea. subst mH sH rH pH. destruct rM.
+  - rewrite app_nil_r in Ea. subst aM. refine (conj eq_refl (conj eq_refl (conj eq_refl (conj W' (conj R' (conj Mo' (conj _ Fg'))))))).
+    intros q _ Hq. now apply Fr'.
+  - subst aM. rewrite fold_left_app.
+    assert (HP' : hch hH P = map rid l) by (rewrite Fr' by exact NP; exact HP).
+    destruct (final_phase P l hh Sb ND NP pend' hH (fold_left apply_fact D t) W' R' Mo' NDp Ip) as (W2 & R2 & Mo2 & F2 & G2).
+    { rewrite HP'. exact Ip. }
+    refine (conj eq_refl (conj eq_refl (conj eq_refl (conj W2 (conj R2 (conj _ (conj _ _))))))).
+    + intros q y Hy. apply Mo'. now apply Mo2.
+    + intros q Qp Ql. rewrite (F2 q Qp Ql). now apply Fr'.
+    + intros z Zl. rewrite (G2 z Zl). now apply Fg'.
+Qed.
+
+Lemma VC_all vd : forall c, VC vd (rid c) (rch c).
+Proof. induction c as [id i ch IH] using rt_ind'. cbn [rid rch]. now apply VC_step. Qed.
+
+Theorem sim_op_filter hw w ti n vd : WFw w -> RepW hw w -> Sim (h_op_filter hw ti n vd) (op_filter w ti n vd).
+Proof.
+  intros W RW. unfold h_op_filter, op_filter. assert (G := RepW_get hw w ti RW).
+  destruct (h_get hw ti) as [h|]; destruct (get_tree w ti) as [t|] eqn:Gt; try contradiction; [|now apply Sim_same].
+  assert (Wt := WFw_tree w ti t W Gt). assert (Pl := h_plive_path h t n Wt G). unfold children_of.
+  destruct (parent_path n (forest_of t)) as [pq|] eqn:Gp.
+  2:{ replace (h_plive h n) with false; [now apply Sim_same|]. destruct (h_plive h n); [|reflexivity].
+      destruct (proj1 Pl eq_refl) as (pq & X). discriminate. }
+  replace (h_plive h n) with true by (symmetry; apply Pl; now exists pq). cbn [negb].
+  destruct (parent_path_get n _ pq Gp) as (ch & Gc). rewrite Gc.
+  assert (Hc := rep_children h t n pq ch Wt G Gp Gc).
+  assert (NDc := NoDup_child_list pq _ ch (wf_nodup t Wt) Gc). assert (Ic := ids_sub_child pq _ ch Gc).
+  assert (Sb : SubCh h ch).
+  { intros y Hy. apply (rep_node_children h t y Wt G). now apply (get_ch_pre pq _ ch Gc). }
+  destruct (ctx_kids pq _ 0 ch (wf_nodup t Wt) (wf_pos t Wt) Gc) as (_ & _ & _ & _ & _ & E4 & _).
+  rewrite (parent_path_owner n _ pq ch Gp Gc) in E4.
+  assert (Lf := fuel_enough h t ch Wt G NDc Ic). unfold h_fuel in *.
+  assert (FA : Forall (fun c => VC vd (rid c) (rch c)) ch) by (apply Forall_forall; intros c _; apply VC_all).
+  assert (V := VC_step vd n ch FA (length (hall h)) h t false ltac:(lia) Wt G Hc Sb NDc E4).
+  destruct (fvisit vd (T 0 dummy_info ch) false) as [[[mM aM] sM] rM]. destruct (h_fvisit (S (length (hall h))) vd h n false) as [[[mH h'] sH] rH].
+  destruct V as (_ & _ & E3 & _ & R' & _). subst rH.
+  split; [reflexivity|]. cbn [snd]. unfold h_put, put_tree. rewrite (repw_next hw w RW). now apply RepW_put.
+Qed.
